@@ -811,6 +811,12 @@ pub fn e4_quick_dists() -> Vec<u16> {
     }
     v.push(32767);
     v.push(32768);
+    // largest distance zlib uses with a 2^w window (2^w - 262) and its neighbours
+    for w in 9..=15u32 {
+        for d in [(1u32 << w) - 263, (1 << w) - 262, (1 << w) - 261] {
+            v.push(d);
+        }
+    }
     v.sort();
     v.dedup();
     v.into_iter().map(|d| d as u16).collect()
@@ -1408,6 +1414,7 @@ pub fn e6_align(
                 // every compressor finds exactly one candidate and emits one maximal match at x + 1.
                 let noise = text_family(4, 400);
                 let (u, v) = (&noise[..300], &noise[300..316]);
+                assert!(x >= 1400, "alignment windows start above 1400");
                 let mut p = filler[..x - 1000].to_vec();
                 p.extend_from_slice(u);
                 p.extend_from_slice(v);
